@@ -55,29 +55,43 @@ def advance_part(ck, tier):
             ck.violation("spec: Advance " + ",".join(r.violated), {"violated": r.violated}, site="spec")
         must_pass(r, "MC_Advance")
         ck.tlc(r, "advance_" + kind)
-        for b in r.printed:
+        import tempfile
+        for bi, b in enumerate(r.printed):
             for display in ((False, True) if tier == "thorough" or kind in ("gibbs", "ensemble") else (False,)):
                 ch = _mk_chain(kind, 5 + seed(), display=display)
                 count = {"n": 0}
-                if kind != "ensemble":
-                    orig = ch.take_step
 
-                    def counted(orig=orig):
-                        count["n"] += 1
-                        orig()
-                    ch.take_step = counted
+                def wrap(c_):
+                    if kind != "ensemble":
+                        orig = c_.take_step
+
+                        def counted(orig=orig):
+                            count["n"] += 1
+                            orig()
+                        c_.take_step = counted
+                wrap(ch)
+                # every fifth call sequence is interrupted by a save / load after its first call: the lengths go on agreeing
+                reload_after_first = (bi % 5 == 2 and len(b["calls"]) >= 2)
                 err = None
                 try:
                     with contextlib.redirect_stdout(io.StringIO()):
-                        for m in b["calls"]:
+                        for ci_, m in enumerate(b["calls"]):
                             if m == -1:
                                 ch.take_step()
                             else:
                                 ch.advance(m)
+                            if reload_after_first and ci_ == 0:
+                                with tempfile.TemporaryDirectory() as d_:
+                                    ch.save(d_ + "/c.npz")
+                                    post_ = GaussPost(2)
+                                    ch = type(ch).load(d_ + "/c.npz", posterior=post_, **({"grad": post_.grad} if kind == "hmc" else {}))
+                                if kind == "hmc":
+                                    ch.steps = 3
+                                wrap(ch)
                 except Exception as ex:
                     err = repr(ex)
                 ident = {"class": type(ch).__name__, "calls": ["take_step" if m == -1 else f"advance({m})" for m in b["calls"]],
-                         "display_progress": display}
+                         "display_progress": display, "saved_and_reloaded_after_first_call": reload_after_first}
                 ck.case(("adv", kind, tuple(b["calls"]), display))
                 site = f"{type(ch).__name__}.advance"
                 if err:
@@ -339,6 +353,26 @@ def pool_part(ck, tier):
     ck.sample({"part": "pool", "sizes": list(sizes), "schedules": ["none", "first_slow", "last_slow"]})
 
 
+def tempering_part(ck, tier):
+    """ParallelTempering.advance(n, swap_interval) advances every chain by exactly n steps: fewer steps than one exchange interval,
+    more than 50 exchange cycles with a remainder, and the default interval"""
+    from harness import c08
+    a = dict(temps=[1, 4], starts=[[-3], [4]], kind="gibbs", display=False, seed=seed() + 41, delays=[0.0, 0.0], jitter=0,
+             prog=[["advance", 7, 10], ["return"], ["advance", 161, 3], ["return"], ["advance", 23, 5], ["return"], ["shutdown"]])
+    sc = c08.run_scenario(a)
+    ck.case(("pt-advance",))
+    if sc["hung"] or sc["result"] is None or sc["result"]["error"]:
+        ck.violation("ParallelTempering run failed", {"error": (sc["result"] or {}).get("error"), "stdout": sc["stdout"][-300:]}, site="ParallelTempering.advance")
+        return
+    want = [1 + 7, 1 + 7 + 161, 1 + 7 + 161 + 23]
+    got = [[c["n"] for c in ret] for ret in sc["result"]["returned"]]
+    lens = [[len(c["sample"]) for c in ret] for ret in sc["result"]["returned"]]
+    if got != [[w, w] for w in want] or lens != got:
+        ck.violation("ParallelTempering.advance(n, swap_interval) appends exactly n samples to every chain (reported length = stored samples)",
+                     {"calls": ["advance(7, 10)", "advance(161, 3)", "advance(23, 5)"], "want_lengths": want, "reported_lengths": got, "stored_samples": lens},
+                     site="ParallelTempering.advance")
+
+
 def run(tier):
     ck = Check("C15", tier)
     ck.rule = ("one case per (sampler class, TLC call sequence, display flag), per (budget, cost schedule, chain, display flag) timed run, "
@@ -359,6 +393,7 @@ def run(tier):
     ck.tlc(r, "advance_arith")
     runfor_part(ck, tier)
     pool_part(ck, tier)
+    tempering_part(ck, tier)
     from harness import repotests
     repotests.run_part(ck, "C15")          # traces of the repository's own MCMC tests, judged by TestRunTrace.tla
     return ck.finish()
